@@ -82,3 +82,11 @@ package bfe_http
 //@   ensures[single_value_under_the_canonical_key] has(h, canonKey(key)) && len(h[canonKey(key)]) == 1 && h[canonKey(key)][0] == value
 //@   ensures[other_keys_are_kept] forall k string :: k != canonKey(key) ==> (has(h, k) <==> old(has(h, k)))
 //@   ensures[other_values_are_kept] forall k string :: k != canonKey(key) ==> sameslice(h[k], old(h[k]))
+
+// ---- C07 / C08: what clusterInvoke relies on ----
+
+//@ package_invariant[the_empty_body_marker_is_set_once] EofReader != nil
+
+//@ func (WriteRequestError).CheckTargetError
+//@   props C07,C08
+//@   modifies nothing
